@@ -371,6 +371,29 @@ def infoChecked (h : Nat) : Outcome Info :=
           | none => .ok ⟨reg, some b.country, b.pattern, none⟩
           | some c => .ok ⟨reg, some (c.country.getD b.country), some c.pattern, c.category⟩
 
+/-- `aircraft_information(icao24, registration)` after `hexid` has been parsed: `tail(hexid)` is computed
+    first (with its panic sites), then a registration given by the caller (jet1090: the aircraft
+    database row) replaces it; the block and category lookups run on the result. -/
+def infoCheckedReg (h : Nat) (given : Option (List Char)) : Outcome Info :=
+  (tailStr h).bind fun reg0 =>
+  let reg := match given with
+    | some t => some t
+    | none => reg0
+  loadPatterns.bind fun _ =>
+  (blockFindChecked h blockBounds blocks).bind fun blk =>
+    match blk with
+    | none => .ok ⟨reg, none, none, none⟩
+    | some b =>
+      match reg with
+      | none => .ok ⟨reg, some b.country, b.pattern, none⟩
+      | some t =>
+        (catFindChecked t b.cats).bind fun cat =>
+          match cat with
+          | none => .ok ⟨reg, some b.country, b.pattern, none⟩
+          | some c => .ok ⟨reg, some (c.country.getD b.country), some c.pattern, c.category⟩
+
+theorem infoCheckedReg_none (h : Nat) : infoCheckedReg h none = infoChecked h := rfl
+
 /-- `aircraft_information(icao24, None)` on the text of the address -/
 def infoStr (icao24 : List Char) : Outcome Info :=
   match parseHexU32 icao24 with
